@@ -417,7 +417,7 @@ theorem grew_nil {a b : St} {e : Bool} (h : Grew a b e) (hb : b.errors = []) : a
 
 /-! ## `.du8 / .du16 / .du32` -/
 
-theorem du_core (sim : Sim num enc t₂ st l) (env : Env) (henv : env.paths.isEmpty = false) {seg : Seg.Active}
+theorem du_core' (sim : Sim num enc t₂ st l) (env : Env) (henv : env.paths.isEmpty = false) {seg : Seg.Active}
     (ha : st.seg.active = some seg) (d : DataExpr) (hp : d.placed = false) (hcur : d.addr = seg.cur)
     (h : (match d.apply env st true with
         | .ok (_, st', .completed) => (.ok (st', .ok) : Out (St × Res))
@@ -432,7 +432,7 @@ theorem du_core (sim : Sim num enc t₂ st l) (env : Env) (henv : env.paths.isEm
         | .stop r => .stop r) = .ok (st', .ok))
     (herr : st'.errors = []) :
     ∃ l', Layout.step l (valueStmt num d.du.size (idents d.arg) (duFinal t₂ d.du d.arg)) = .ok l' ∧
-      SimR num enc t₂ st' l' ∧ cursor st' = (cursor st).map fun x => x + d.du.size := by
+      SimR num enc t₂ st' l' ∧ (cursor st' = (cursor st).map fun x => x + d.du.size) ∧ DuFate t₂ st' d.du d.arg := by
   obtain ⟨t, hl, hnd, hsub, henvr⟩ := sim.tbl
   obtain ⟨q, hq, hqr⟩ := sim.tasks
   have hla := active_of_sim sim.r ha
@@ -513,7 +513,7 @@ theorem du_core (sim : Sim num enc t₂ st l) (env : Env) (henv : env.paths.isEm
       cases hsch
       refine ⟨{ l with active := some (toL { seg with buf := seg.buf ++ List.replicate d.du.size 0xBE }),
                        tasks := l.tasks ++ [⟨(toL seg).curr, d.du.size, (idents d.arg).map num, duFinal t₂ d.du d.arg⟩] },
-        ?_, ⟨⟨w4.1, w4.2⟩, ⟨t, hl, hnd, hsub, henvr⟩, ⟨_, rfl, ?_⟩, sim.gl⟩, ?_⟩
+        ?_, ⟨⟨w4.1, w4.2⟩, ⟨t, hl, hnd, hsub, henvr⟩, ⟨_, rfl, ?_⟩, sim.gl⟩, ?_, ?_⟩
       · rw [step_value_defer hla num _ _ _ hall]
         show (match Layout.append l (List.replicate d.du.size 0xBE) with | .error e => _ | .ok st' => _) = _
         rw [w3]
@@ -522,6 +522,7 @@ theorem du_core (sim : Sim num enc t₂ st l) (env : Env) (henv : env.paths.isEm
         show (toL seg).curr = d.addr
         rw [hcurr, hcur]
       · simp [cursor, ha, w1, Nat.add_assoc]
+      · exact .inr ⟨q, _, t, n, rfl, rfl, hsub, hnd, hev⟩
     | complete x =>
       simp only at hap
       cases hw : ({ d with arg := x } : DataExpr).writer st with
@@ -551,12 +552,31 @@ theorem du_core (sim : Sim num enc t₂ st l) (env : Env) (henv : env.paths.isEm
               have hall := hasAll_of_known henvr hnd (evalIn_complete_idents hev)
               have hfin : duFinal t₂ d.du d.arg = leBytes d.du.size v.toNat := by
                 simp only [duFinal, constVal_of hsub hnd hev, hv, and_self, if_true]
-              refine ⟨_, ?_, simR_seg sim w4 rfl rfl, ?_⟩
+              refine ⟨_, ?_, simR_seg sim w4 rfl rfl, ?_, .inl ⟨v, constVal_of hsub hnd hev, hv.1, hv.2⟩⟩
               · rw [step_value_direct hla num _ _ _ hall, hfin]
                 exact w3
               · simp [cursor, ha, w1, leBytes_length, Nat.add_assoc]
             · rw [if_neg hv] at hw; simp at hw
           | _ => simp at hw
+
+theorem du_core (sim : Sim num enc t₂ st l) (env : Env) (henv : env.paths.isEmpty = false) {seg : Seg.Active}
+    (ha : st.seg.active = some seg) (d : DataExpr) (hp : d.placed = false) (hcur : d.addr = seg.cur)
+    (h : (match d.apply env st true with
+        | .ok (_, st', .completed) => (.ok (st', .ok) : Out (St × Res))
+        | .ok (d', st', _) =>
+          match d'.writeData st' (List.replicate d.du.size 0xBE) with
+          | .ok (d'', st'', .ok) =>
+            match d''.schedule st'' false with
+            | .ok st3 => .ok (st3, .ok)
+            | .stop r => .stop r
+          | .ok (_, st'', .err l) => .ok (st'', .err l)
+          | .stop r => .stop r
+        | .stop r => .stop r) = .ok (st', .ok))
+    (herr : st'.errors = []) :
+    ∃ l', Layout.step l (valueStmt num d.du.size (idents d.arg) (duFinal t₂ d.du d.arg)) = .ok l' ∧
+      SimR num enc t₂ st' l' ∧ cursor st' = (cursor st).map fun x => x + d.du.size := by
+  obtain ⟨l', h1, h2, h3, _⟩ := du_core' sim env henv ha d hp hcur h herr
+  exact ⟨l', h1, h2, h3⟩
 
 /-! ## instructions -/
 
@@ -594,7 +614,7 @@ theorem assemble_deferred_deps {t : Table} (hn : Table.NoDef t) {addr : Nat} {tp
         exact conv_deferred_deps t hn _ _ _ _ _ _ _ _ _ _ _ hc
       | ok A D I V => rw [hc] at h; simp only at h; split at h <;> cases h
 
-theorem instr_core (henc : EncLen enc) (sim : Sim num enc t₂ st l) (env : Env) (henv : env.paths.isEmpty = false)
+theorem instr_core' (henc : EncLen enc) (sim : Sim num enc t₂ st l) (env : Env) (henv : env.paths.isEmpty = false)
     {seg : Seg.Active} (ha : st.seg.active = some seg) (tpl : Instr) (args : List Arg)
     (file : Bytes) (line col : Nat)
     (h : (match (⟨file, line, col, ⟨seg.cur, tpl, 0, args⟩, false⟩ : ArmInstr).assemble env st true with
@@ -614,7 +634,8 @@ theorem instr_core (henc : EncLen enc) (sim : Sim num enc t₂ st l) (env : Env)
     (herr : st'.errors = []) :
     ∃ l', Layout.step l (valueStmt num (ilen tpl) (instrDeps (Front.kinds tpl) args)
         (instrFinal enc t₂ (seg.base + seg.buf.length) tpl args)) = .ok l' ∧
-      SimR num enc t₂ st' l' ∧ cursor st' = (cursor st).map fun x => x + ilen tpl := by
+      SimR num enc t₂ st' l' ∧ (cursor st' = (cursor st).map fun x => x + ilen tpl) ∧
+      InstrFate enc t₂ st' (seg.base + seg.buf.length) tpl args := by
   obtain ⟨t, hl, hnd, hsub, henvr⟩ := sim.tbl
   obtain ⟨q, hq, hqr⟩ := sim.tasks
   have hla := active_of_sim sim.r ha
@@ -705,12 +726,12 @@ theorem instr_core (henc : EncLen enc) (sim : Sim num enc t₂ st l) (env : Env)
           have hct : seg.cur = seg.base + seg.buf.length :=
             cur_true (sim.good.inv.2.1 seg ha) (n := bytes.length) (by omega) w2
           have hall := hasAll_of_known henvr hnd (assemble_completed_deps hfa)
-          have hfin : instrFinal enc t₂ (seg.base + seg.buf.length) tpl args = bytes := by
-            have := assemble_mono (e₂ := frontEval t₂) (st := ⟨seg.cur, tpl, 0, args⟩)
+          have hmono := assemble_mono (e₂ := frontEval t₂) (st := ⟨seg.cur, tpl, 0, args⟩)
               (fun a ha' => grows_all hsub hnd a) hfa true
-            rw [hct] at this
-            simp only [instrFinal, this, he]
-          refine ⟨_, ?_, simR_seg sim w4 rfl rfl, ?_⟩
+          rw [hct] at hmono
+          have hfin : instrFinal enc t₂ (seg.base + seg.buf.length) tpl args = bytes := by
+            simp only [instrFinal, hmono, he]
+          refine ⟨_, ?_, simR_seg sim w4 rfl rfl, ?_, .inl ⟨fs, bytes, hmono, he⟩⟩
           · rw [step_value_direct hla num _ _ _ hall, hfin]
             exact w3
           · simp [cursor, ha, w1, hblen, Nat.add_assoc]
@@ -734,7 +755,7 @@ theorem instr_core (henc : EncLen enc) (sim : Sim num enc t₂ st l) (env : Env)
         refine ⟨{ l with active := some (toL { seg with buf := seg.buf ++ List.replicate (ilen tpl) 0xBE }),
                          tasks := l.tasks ++ [⟨(toL seg).curr, ilen tpl, (instrDeps (Front.kinds tpl) args).map num,
                             instrFinal enc t₂ (seg.base + seg.buf.length) tpl args⟩] },
-          ?_, ⟨⟨w4.1, w4.2⟩, ⟨t, hl, hnd, hsub, henvr⟩, ⟨_, rfl, ?_⟩, sim.gl⟩, ?_⟩
+          ?_, ⟨⟨w4.1, w4.2⟩, ⟨t, hl, hnd, hsub, henvr⟩, ⟨_, rfl, ?_⟩, sim.gl⟩, ?_, ?_⟩
         · rw [step_value_defer hla num _ _ _ hall]
           show (match Layout.append l (List.replicate (ilen tpl) 0xBE) with | .error e => _ | .ok st' => _) = _
           rw [w3]
@@ -749,6 +770,35 @@ theorem instr_core (henc : EncLen enc) (sim : Sim num enc t₂ st l) (env : Env)
           · show instrFinal enc t₂ (seg.base + seg.buf.length) tpl args = instrFinal enc t₂ fs.addr tpl args
             rw [hka, hct]
         · simp [cursor, ha, w1, Nat.add_assoc]
+        · refine .inr ⟨q, _, t, c, rfl, ?_, hsub, hnd, ?_⟩
+          · show fs.addr = seg.base + seg.buf.length
+            rw [hka, hct]
+          · show Front.assemble ⟨seg.base + seg.buf.length, tpl, 0, args⟩ (frontEval t) true = (fs, .deferred c)
+            rw [← hct]; exact hfa
+
+theorem instr_core (henc : EncLen enc) (sim : Sim num enc t₂ st l) (env : Env) (henv : env.paths.isEmpty = false)
+    {seg : Seg.Active} (ha : st.seg.active = some seg) (tpl : Instr) (args : List Arg)
+    (file : Bytes) (line col : Nat)
+    (h : (match (⟨file, line, col, ⟨seg.cur, tpl, 0, args⟩, false⟩ : ArmInstr).assemble env st true with
+        | .ok (i', st', .completed) =>
+          match i'.writeInstr enc st' false with
+          | .ok (_, st'', r) => (.ok (st'', r) : Out (St × Res))
+          | .stop r => .stop r
+        | .ok (i', st', _) =>
+          match i'.writeInstr enc st' true with
+          | .ok (i'', st'', .ok) =>
+            match i''.schedule st'' false with
+            | .ok st3 => .ok (st3, .ok)
+            | .stop r => .stop r
+          | .ok (_, st'', .err l) => .ok (st'', .err l)
+          | .stop r => .stop r
+        | .stop r => .stop r) = .ok (st', .ok))
+    (herr : st'.errors = []) :
+    ∃ l', Layout.step l (valueStmt num (ilen tpl) (instrDeps (Front.kinds tpl) args)
+        (instrFinal enc t₂ (seg.base + seg.buf.length) tpl args)) = .ok l' ∧
+      SimR num enc t₂ st' l' ∧ cursor st' = (cursor st).map fun x => x + ilen tpl := by
+  obtain ⟨l', h1, h2, h3, _⟩ := instr_core' henc sim env henv ha tpl args file line col h herr
+  exact ⟨l', h1, h2, h3⟩
 
 /-! ## one statement -/
 
@@ -804,6 +854,41 @@ theorem instr_sim (henc : EncLen enc) (sim : Sim num enc t₂ st l) (env : Env) 
       simp only at h
       obtain ⟨l', h1, h2, h3⟩ := instr_core henc sim env henv ha tpl args env.curName line col h herr
       exact ⟨tpl, seg.base + seg.buf.length, l', rfl, by simp [cursor, ha], h1, h2, by rw [h3]; simp [cursor, ha]⟩
+
+theorem du_fate (sim : Sim num enc t₂ st l) (du : DU) (env : Env) (henv : env.paths.isEmpty = false) (line col : Nat)
+    (args : List Arg)
+    (h : duDirective du env st line col args = .ok (st', .ok)) (herr : st'.errors = []) :
+    ∃ a, args = [a] ∧ DuFate t₂ st' du a := by
+  unfold duDirective at h
+  cases ha : st.seg.active with
+  | none => simp [currAddr, ha] at h
+  | some seg =>
+    simp only [currAddr, ha, Option.map_some] at h
+    split at h
+    · simp at h
+    · rename_i har
+      obtain ⟨a, rfl⟩ := arity_one har
+      simp only at h
+      obtain ⟨l', _, _, _, h4⟩ := du_core' sim env henv ha ⟨du, env.curName, line, col, seg.cur, a, false⟩ rfl rfl
+        h herr
+      exact ⟨a, rfl, h4⟩
+
+theorem instr_fate (henc : EncLen enc) (sim : Sim num enc t₂ st l) (env : Env) (henv : env.paths.isEmpty = false)
+    (line col : Nat) (name : Bytes) (args : List Arg)
+    (h : instruction enc env st line col name args = .ok (st', .ok)) (herr : st'.errors = []) :
+    ∃ tpl c, Front.mnemonic name = some tpl ∧ cursor st = some c ∧ InstrFate enc t₂ st' c tpl args := by
+  unfold instruction at h
+  cases ha : st.seg.active with
+  | none => simp [currAddr, ha] at h
+  | some seg =>
+    simp only [currAddr, ha, Option.map_some] at h
+    cases hm : Front.mnemonic name with
+    | none => rw [hm] at h; simp at h
+    | some tpl =>
+      rw [hm] at h
+      simp only at h
+      obtain ⟨l', _, _, _, h4⟩ := instr_core' henc sim env henv ha tpl args env.curName line col h herr
+      exact ⟨tpl, seg.base + seg.buf.length, rfl, by simp [cursor, ha], h4⟩
 
 theorem statement_sim (hinj : Function.Injective num) (henc : EncLen enc) (sim : Sim num enc t₂ st l)
     (fs : Bytes → Option Bytes) (inc : Inc) (env : Env) (path : Bytes) (henv : env.paths = [path]) (el : Element)
@@ -907,6 +992,94 @@ theorem statement_sim (hinj : Function.Injective num) (henc : EncLen enc) (sim :
       refine hstr "dfile" (.inr (.inr rfl)) h (fun s d ha _ _ c3 => ?_)
       simp only [absStmt, h0, h1', h2', h6', h7', if_false]
       simp only [h8', if_true, ha, c3 rfl]
+    rw [if_neg h8'] at h
+    rw [if_neg hn2, if_neg hn3, if_neg hn4, if_neg hn1] at h
+    simp at h
+
+/-- a statement that succeeded without a diagnostic: its abstraction is no fallback, and its value-dependent bytes are
+genuine over the final table already, or the statement is queued with its first attempt on record -/
+theorem statement_fate (hinj : Function.Injective num) (henc : EncLen enc) (sim : Sim num enc t₂ st l)
+    (fs : Bytes → Option Bytes) (inc : Inc) (env : Env) (path : Bytes) (henv : env.paths = [path]) (el : Element)
+    (hok : okEl el = true)
+    (h : statement fs enc inc env st el = .ok (st', .ok)) (herr : st'.errors = [])
+    (hT : ∀ t', st'.locals = some t' → Table.Sub t' t₂) :
+    ElFate fs enc path t₂ (cursor st) st' el := by
+  have henv' : env.paths.isEmpty = false := by rw [henv]; rfl
+  obtain ⟨line, col, val⟩ := el
+  cases val with
+  | label name => trivial
+  | instruction name args =>
+    simp only [statement] at h
+    split at h
+    · simp at h
+    · obtain ⟨tpl, c, hm, hc, hf⟩ := instr_fate henc sim env henv' line col name args.toList h herr
+      exact ⟨tpl, c, hm, hc, hf⟩
+  | directive name args =>
+    simp only [okEl, Bool.not_eq_true', Bool.or_eq_false_iff, decide_eq_false_iff_not] at hok
+    obtain ⟨⟨⟨hn1, hn2⟩, hn3⟩, hn4⟩ := hok
+    simp only [statement] at h
+    unfold directive at h
+    show ElGenW _ _ fs path t₂ (cursor st) ⟨line, col, .directive name args⟩
+    simp only [ElGenW]
+    by_cases h0 : name = bytesOf "addr"
+    · rw [if_pos h0] at h ⊢
+      obtain ⟨a, v, l', ha, hv, h1, _, _⟩ := addr_sim sim env henv' line col args.toList h
+      refine ⟨a, v, ha, hv, ?_⟩
+      simp only [Layout.step, Layout.changeSeg] at h1
+      split at h1
+      · cases h1
+      · rename_i hlt; unfold Layout.top at hlt; omega
+    rw [if_neg h0] at h ⊢
+    by_cases h1' : name = bytesOf "align"
+    · rw [if_pos h1'] at h ⊢
+      obtain ⟨a, v, l', ha, hv, h1, _, _⟩ := align_sim sim env henv' line col args.toList h
+      refine ⟨a, v, ha, hv, ?_⟩
+      rw [Layout.step_align] at h1
+      split at h1
+      · cases h1
+      · split at h1
+        · cases h1
+        · rename_i hr; unfold Layout.top at hr; omega
+    rw [if_neg h1'] at h ⊢
+    by_cases h2' : name = bytesOf "const"
+    · rw [if_pos h2'] at h ⊢
+      obtain ⟨nm, b, v, l', ha, hv, _, _, _⟩ := const_sim hinj sim env henv' line col args.toList h hT
+      exact ⟨nm, b, v, ha, hv⟩
+    rw [if_neg h2'] at h ⊢
+    have hdu : ∀ du, duOf name = some du → duDirective du env st line col args.toList = .ok (st', .ok) →
+        ∃ du a, duOf name = some du ∧ args.toList = [a] ∧ DuFate t₂ st' du a := by
+      intro du hdu hd
+      obtain ⟨a, ha, hf⟩ := du_fate sim du env henv' line col args.toList hd herr
+      exact ⟨du, a, hdu, ha, hf⟩
+    by_cases h3' : name = bytesOf "du8"
+    · rw [if_pos h3'] at h
+      rw [if_neg (by rw [h3']; decide), if_neg (by rw [h3']; decide), if_neg (by rw [h3']; decide)]
+      exact hdu .u8 (by simp [duOf, h3']) h
+    rw [if_neg h3'] at h
+    by_cases h4' : name = bytesOf "du16"
+    · rw [if_pos h4'] at h
+      rw [if_neg (by rw [h4']; decide), if_neg (by rw [h4']; decide), if_neg (by rw [h4']; decide)]
+      exact hdu .u16 (by rw [h4']; decide) h
+    rw [if_neg h4'] at h
+    by_cases h5' : name = bytesOf "du32"
+    · rw [if_pos h5'] at h
+      rw [if_neg (by rw [h5']; decide), if_neg (by rw [h5']; decide), if_neg (by rw [h5']; decide)]
+      exact hdu .u32 (by rw [h5']; decide) h
+    rw [if_neg h5'] at h
+    by_cases h6' : name = bytesOf "dhex"
+    · rw [if_pos h6'] at h ⊢
+      obtain ⟨s, d, ha, c1, _, _, _⟩ := stringDirective_inv (.inl rfl) henv h
+      exact ⟨s, d, ha, c1 rfl⟩
+    rw [if_neg h6'] at h ⊢
+    by_cases h7' : name = bytesOf "dstr"
+    · rw [if_pos h7'] at h ⊢
+      obtain ⟨s, d, ha, _, _, _, _⟩ := stringDirective_inv (.inr (.inl rfl)) henv h
+      exact ⟨s, ha⟩
+    rw [if_neg h7'] at h ⊢
+    by_cases h8' : name = bytesOf "dfile"
+    · rw [if_pos h8'] at h ⊢
+      obtain ⟨s, d, ha, _, _, c3, _⟩ := stringDirective_inv (.inr (.inr rfl)) henv h
+      exact ⟨s, d, ha, c3 rfl⟩
     rw [if_neg h8'] at h
     rw [if_neg hn2, if_neg hn3, if_neg hn4, if_neg hn1] at h
     simp at h
